@@ -587,9 +587,11 @@ def classRank (type : String) : Nat :=
   if type == "source" then 0 else if type == "gene" then 2 else if type == "CDS_motif" then 4
   else if type == "aSDomain" then 5 else if type == "PFAM_domain" then 6 else if type == "aSModule" then 7 else 1
 
+/-- one element of `all_features`; plain and CDS features carry their position in the record's list,
+    which stands for the identity of the Python object -/
 inductive Ent where
-  | plain (f : Feat)
-  | cds (f : Feat)
+  | plain (k : Nat) (f : Feat)
+  | cds (k : Nat) (f : Feat)
   | sub (i : Nat)
   | proto (i : Nat)
   | cand (i : Nat)
@@ -597,18 +599,18 @@ inductive Ent where
 deriving DecidableEq, Repr, Inhabited
 
 def Ent.isArea : Ent → Bool
-  | .plain _ | .cds _ => false
+  | .plain _ _ | .cds _ _ => false
   | _ => true
 
 def entLoc (r : Rec) : Ent → Loc
-  | .plain f | .cds f => f.loc
+  | .plain _ f | .cds _ f => f.loc
   | .sub i => ((r.subs[i]?).map (·.feat.loc)).getD default
   | .proto i => ((r.protos[i]?).map (·.feat.loc)).getD default
   | .cand i => ((r.cands[i]?).map (·.feat.loc)).getD default
   | .reg i => ((r.regs[i]?).map (·.feat.loc)).getD default
 
 def entType (_r : Rec) : Ent → String
-  | .plain f | .cds f => f.type
+  | .plain _ f | .cds _ f => f.type
   | .sub _ => "subregion" | .proto _ => "protocluster" | .cand _ => "cand_cluster" | .reg _ => "region"
 
 /-- `other in self` for a collection `self` -/
@@ -617,25 +619,32 @@ def isChild (r : Rec) : Ent → Ent → Bool
   | .reg i, .cand j => ((r.regs[i]?).map (·.cands.contains j)).getD false
   | .reg i, .sub j => ((r.regs[i]?).map (·.subs.contains j)).getD false
   | .reg i, .proto j => ((r.regs[i]?).map fun g => (childCands r g).any (·.children.contains j)).getD false
-  | a, .cds f => a.isArea && locationContainsOther (entLoc r a) f.loc
+  | a, .cds _ f => a.isArea && locationContainsOther (entLoc r a) f.loc
   | _, _ => false
 
-/-- `a < b` as `sorted(self.all_features)` evaluates it: the class of `a` selects the method -/
+/-- `a < b` as `sorted(self.all_features)` evaluates it: the class of `a` selects the method.
+    A sort only ever compares two *different* objects; the guard `a != b` makes that explicit (it is
+    inert on `allEntries`, whose elements are pairwise different) so that the `source` tie rule does
+    not make a feature smaller than itself. -/
 def entLt (r : Rec) (a b : Ent) : Bool :=
-  if a.isArea then
+  if a == b then false
+  else if a.isArea then
     if isChild r a b then true else areaLt (entLoc r a) (entLoc r b)
   else featLt ⟨entLoc r a, entType r a, [], [], false, none⟩ ⟨entLoc r b, entType r b, [], [], false, none⟩
 
 /-- `Record.all_features` -/
 def allEntries (r : Rec) : List Ent :=
+  let indexed : List Ent := (List.range r.others.length).filterMap fun i => (r.others[i]?).map (Ent.plain i)
   let plain (ranks : List Nat) : List Ent :=
-    ranks.flatMap fun k => (r.others.filter fun f => classRank f.type == k).map Ent.plain
-  plain [0, 1, 2] ++ r.cdss.map Ent.cds ++ plain [4, 5, 6, 7] ++
+    ranks.flatMap fun k => indexed.filter fun e => match e with
+      | .plain _ f => classRank f.type == k
+      | _ => false
+  plain [0, 1, 2] ++ (List.range r.cdss.length).filterMap (fun i => (r.cdss[i]?).map (Ent.cds i)) ++ plain [4, 5, 6, 7] ++
   (List.range r.subs.length).map Ent.sub ++ (List.range r.protos.length).map Ent.proto ++
   (List.range r.cands.length).map Ent.cand ++ (List.range r.regs.length).map Ent.reg
 
 def entToBio (r : Rec) : Ent → E (List Bio)
-  | .plain f | .cds f => do pure [← f.toBio]
+  | .plain _ f | .cds _ f => do pure [← f.toBio]
   | .sub i => match r.subs[i]? with
     | some s => s.toBio (some (i + 1)) (s.edge r.len)
     | none => throw "IndexError"
